@@ -102,7 +102,7 @@ def eval_hy(case):
 
     tr, pr = case["tr"], case["pr"]
     try:
-        with alarm(0.5):
+        with alarm(2.0):
             z = float(gas.z_factor_hallyarbrough(pr, tr))
     except CaseTimeout:
         return {"violations": [V("hy/terminates", f"Hall-Yarbrough does not terminate at {tr=}, {pr=}", case=case)],
